@@ -18,6 +18,7 @@ type authSrv struct {
 	Iter          int
 	ServerNonce   string
 	CramChallenge string
+	ScramExt      string // extensions appended to the SCRAM server-first message ("" = none)
 	// Fault, when set, deviates at AUTH step N (0 = reaction to the AUTH command itself):
 	// "535", "malformed" (non-base64 challenge), "extra" (an unexpected extra challenge), "drop", "454"
 	FaultStep int
@@ -205,7 +206,7 @@ func (a *authSrv) handler() refsmtp.AuthHandler {
 				hash = "SHA-256"
 			}
 			plus := mech == "SCRAM-SHA-1-PLUS" || mech == "SCRAM-SHA-256-PLUS"
-			cfg := sasl.ScramConfig{Hash: hash, Plus: plus, User: a.User, Password: []byte(a.Pass), Salt: a.Salt, Iterations: a.Iter, ServerNonce: a.ServerNonce}
+			cfg := sasl.ScramConfig{Hash: hash, Plus: plus, User: a.User, Password: []byte(a.Pass), Salt: a.Salt, Iterations: a.Iter, ServerNonce: a.ServerNonce, Ext: a.ScramExt}
 			if cfg.Iterations < 1 {
 				cfg.Iterations = 4096
 			}
